@@ -27,9 +27,18 @@ PROPS = {
                 coq=['props/C03.vo'], tags=[3],
                 streams=[('w1', 'S3', 50, 60), ('w2', 'S3', 20, 60)],
                 configs=['dbg', 'rel'], need=['probe', 'create']),
+    'C04': dict(title='Each component value is dropped exactly once; nothing leaks or double-drops',
+                coq=['props/C04.vo'], tags=[4],
+                streams=[('w1', 'S4', 50, 60), ('w2', 'S4', 25, 60)], configs=['dbg', 'rel'], need=['create', 'destroy', 'reg']),
     'C05': dict(title='Queries act on exactly the archetypes whose component set satisfies them',
                 coq=['props/C05.vo'], tags=[5], macro=dict(cases=150, stress=False),
                 streams=[('w1', 'S5', 20, 50), ('w2', 'S5', 10, 50)], configs=['dbg'], need=['find', 'iter']),
+    'C06': dict(title='Iteration visits every matching live entity exactly once with its own data',
+                coq=['props/C06.vo'], tags=[6],
+                streams=[('w1', 'S5', 50, 60), ('w2', 'S5', 25, 60)], configs=['dbg', 'rel'], need=['iter', 'readall']),
+    'C07': dict(title='ecs_iter_destroy! visits each entity once and destroys exactly the flagged ones',
+                coq=['props/C07.vo'], tags=[7],
+                streams=[('w1', 'S6', 50, 60), ('w2', 'S6', 25, 60)], configs=['dbg', 'rel'], need=['iterd', 'create']),
     'C08': dict(title='No handle is ever issued twice within a world',
                 coq=['props/C08.vo'], tags=[8],
                 streams=[('w1', 'S7', 40, 60), ('w1', 'S1', 20, 60), ('w2', 'S7', 20, 60)],
@@ -60,6 +69,13 @@ PROPS = {
                 configs=['dbg', 'rel'], need=['conv']),
 }
 
+PROPS['C17'] = dict(title='Event logs record exactly the creations and destructions since the last clear',
+                    coq=['props/C17.vo'], tags=[17],
+                    streams=[('w1', 'S12', 50, 60), ('w2', 'S12', 25, 60)], configs=['dbg-ev', 'rel'], need=['events', 'create', 'destroy'])
+PROPS['C19'] = dict(title='Crate features and build profiles change nothing but what they document',
+                    coq=['props/C19.vo'], tags=[1, 2, 3, 4, 5, 6, 7, 8, 9, 10, 12, 13, 14, 17, 19],
+                    streams=[('w1', 'S1', 12, 50), ('w1', 'S2', 10, 50), ('w1', 'S7', 12, 50), ('w1', 'S12', 10, 50), ('w1', 'S9', 8, 50), ('w3', 'S2', 10, 40), ('w3', 'S1', 8, 40)],
+                    configs=['dbg-ev', 'dbg-wrap', 'rel', 'rel-plain', 'dbg-32'], need=['create'])
 PROPS['C15'] = dict(title='Archetype and component ids follow the discriminant rule and are unique',
                     coq=['props/C15.vo'], tags=[15], macro=dict(cases=200, stress=True),
                     streams=[('w2', 'H1', 10, 40)], configs=['dbg'], need=['conv'])
